@@ -5,9 +5,9 @@ use crate::refmodels::*;
 use crate::Ctx;
 use rrtk::*;
 
-const COMP: [f32; 6] = [0.0, -0.0, 1.0, -2.0, 0.5, 1024.0];
-const BROAD: [f32; 4] = [0.1, -7.3, 1e3, -3.3e-3];
-const DTS: [i64; 8] = [-100_000 * S, -2 * S, -S / 2, 0, 1, S / 2, 2 * S, 100_000 * S];
+const COMP: [f32; 8] = [0.0, -0.0, 1.0, -2.0, 0.5, 1024.0, -0.125, 3.0];
+const BROAD: [f32; 6] = [0.1, -7.3, 1e3, -3.3e-3, 1e-6, 9999.9];
+const DTS: [i64; 12] = [-100_000 * S, -2 * S, -S / 2, -1, 0, 1, 1_000, S / 4, S / 2, 2 * S, 3_600 * S, 100_000 * S];
 
 fn states(vals: &[f32]) -> Vec<State> {
     let mut v = Vec::new();
@@ -303,8 +303,8 @@ pub fn run(_ctx: &Ctx) -> Vec<Eng> {
     let broad = states(&BROAD);
     let mut e1 = Eng::new(
         "c14-kinematics",
-        "State::update on all 6^3 states over {0,-0,1,-2,0.5,1024} and 4^3 over {0.1,-7.3,1e3,-3.3e-3} x dt in {-1e5 s,-2 s,-0.5 s,0,1 ns,0.5 s,2 s,1e5 s}: v' = v + a dt, p' = p + v dt + a dt^2/2 (f64 reference: bit-exact where every evaluation order is exact, else 8x forward-error bound), acceleration bits unchanged, dt = 0 the identity; non-trivial = dt != 0 and a != 0",
-        "280 states x 8 intervals",
+        "State::update on all 8^3 states over {0,-0,1,-2,0.5,1024,-0.125,3} and 6^3 over {0.1,-7.3,1e3,-3.3e-3,1e-6,9999.9} x dt in {-1e5 s,-2 s,-0.5 s,-1 ns,0,1 ns,1 us,0.25 s,0.5 s,2 s,1 h,1e5 s}: v' = v + a dt, p' = p + v dt + a dt^2/2 (f64 reference: bit-exact where every evaluation order is exact, else 8x forward-error bound), acceleration bits unchanged, dt = 0 the identity; non-trivial = dt != 0 and a != 0",
+        "728 states x 12 intervals",
     );
     kinematics(&mut e1, &exact, "exact-alphabet");
     kinematics(&mut e1, &broad, "broad-alphabet");
@@ -318,7 +318,7 @@ pub fn run(_ctx: &Ctx) -> Vec<Eng> {
     e2.sample(|| "State(0,1,-2).set_constant_velocity(7.5 mm) -> Err, state untouched".to_string());
     let mut e3 = Eng::new(
         "c14-conversions",
-        "Command::from(State) on all 216+64 states (lowest non-zero derivative, -0 counts as zero); State accessors, get_value, State::new round trip and its dimension check over 49 units x 3 slots; Command kind/raw/Quantity/per-derivative accessors and round trips over 3 kinds x 8 values incl. +-0, MAX, subnormal; non-trivial = conversion that must look past a zero derivative",
+        "Command::from(State) on all 512+216 states (lowest non-zero derivative, -0 counts as zero); State accessors, get_value, State::new round trip and its dimension check over 49 units x 3 slots; Command kind/raw/Quantity/per-derivative accessors and round trips over 3 kinds x 8 values incl. +-0, MAX, subnormal; non-trivial = conversion that must look past a zero derivative",
         "",
     );
     conversions(&mut e3, &exact);
